@@ -77,7 +77,7 @@ struct ParserWorld : World {
 
 	// ---------------------------------------------------------------- generation
 	static void gen_name(Rng &r, Bytes &t, bool huge) {
-		size_t n = huge ? (size_t) (r.chance(1, 2) ? r.range(250, 260) : r.chance(1, 2) ? r.range(65530, 65540) : r.range(300, 70000)) : (size_t) r.range(0, 9);
+		size_t n = huge ? (size_t) (r.chance(1, 2) ? (r.chance(1, 2) ? r.range(255, 257) : r.range(250, 260)) : r.chance(1, 2) ? r.range(65530, 65540) : r.range(300, 70000)) : (size_t) r.range(0, 9);
 		static const char cs[] = "abcXYZ019_-. ";
 		for (size_t i = 0; i < n; ++i) t.push_back((uint8_t) (huge ? 'a' + i % 26 : cs[r.below(sizeof cs - 1)]));
 	}
@@ -89,7 +89,7 @@ struct ParserWorld : World {
 		if (r.chance(1, 10)) { for (auto &b : fb) if (r.chance(1, 6)) b = (uint8_t) r.range(33, 126); }
 		uint8_t ss = fb.size() > 0 ? fb[0] : '{', se = fb.size() > 2 ? fb[2] : '}', as = fb.size() > 4 ? fb[4] : '=', oe = fb.size() > 5 ? fb[5] : 0, cm = fb.size() > 6 ? fb[6] : '#';
 		if (isspace(oe)) oe = 0;
-		bool huge = r.chance(1, tier ? 12 : 40);
+		bool huge = r.chance(1, tier ? 12 : 25);
 		Bytes t;
 		int depth = 0, items = (int) r.range(0, 14);
 		for (int i = 0; i < items; ++i) {
@@ -259,6 +259,40 @@ struct ParserWorld : World {
 				}
 				if (ledger_live()) fail("leak", "event parse (%d) left %zu block(s) allocated: %s", rc, ledger_live(), ledger_describe().c_str());
 				st.state(301, rc < 0 ? 0 : 1, (uint64_t) std::min<uint64_t>(nest.sections, 3) * 4 + std::min<uint64_t>(nest.options, 3));
+				// the caller's own event loop (examples/core/parse.c) over a length-linked path (SepBinary: no separator character, one length byte
+				// in front of and behind each element, so no element beyond 255 bytes): as far as it gets, the events are the ones the default path gave,
+				// name for name, and the end of every section it announced can be taken off the path again
+				{
+					Reader rb; rb.p = text.data(); rb.n = text.size(); rb.cap = text.size() + 16;
+					parser_context cb; cb.src.getc = rd_getc; cb.src.arg = &rb;
+					cb.name.sect = (uint16_t) sect; cb.name.opt = (uint16_t) opt;
+					cb.prev = parser_context::Section;
+					parser_format pb = pf;
+					Nest bn; int rb_rc = 0; uint64_t steps = 0; bool delfail = false;
+					path *bp; { Sut s; bp = new path(); } bp->flags = path::SepBinary;
+					while (true) {
+						{ Sut s; rb_rc = next(&pb, &cb, bp); }
+						if (rb_rc <= 0 || ++steps > text.size() + 16) break;
+						struct iovec vec; vec.iov_base = (char *) (bp->base + bp->off + bp->len); vec.iov_len = cb.valid;
+						value val; val.set(MPT_type_toVector('c'), &vec);
+						nest_save(&bn, bp, (rb_rc & 4) ? &val : 0, cb.prev, rb_rc);
+						int dr; bool end = (rb_rc & 3) == 2;
+						{ Sut s; dr = end ? mpt_path_del(bp) : mpt_path_invalidate(bp); }
+						if (dr < 0) { if (end && !bn.bad) delfail = true; break; }
+						cb.prev = cb.curr; cb.curr = 0; cb.valid = 0;
+					}
+					{ Sut s; delete bp; }
+					log.ev("EVENTS length-linked path -> %d events=%llu sections=%llu options=%llu depth=%d", rb_rc, (unsigned long long) bn.events, (unsigned long long) bn.sections, (unsigned long long) bn.options, bn.depth);
+					if (rb.over || steps > text.size() + 16) fail("reader-loop", "event loop over a length-linked path: %llu reader calls, %llu events for %zu characters", (unsigned long long) rb.calls, (unsigned long long) steps, text.size());
+					if (delfail) fail("bad-nesting", "length-linked path: the end of a section the parser had announced (event %llu, %d open) could not be taken off the path", (unsigned long long) bn.events, bn.depth + 1);
+					size_t m = std::min(bn.tree.size(), nest.tree.size());
+					for (size_t i = 0; i < m; ++i) if (bn.tree[i].depth != nest.tree[i].depth || bn.tree[i].name != nest.tree[i].name)
+						fail("path-events", "length-linked path: entry %zu is depth %d name of %zu bytes '%.12s', the same input over a default path gave depth %d name of %zu bytes '%.12s'", i,
+						     bn.tree[i].depth, bn.tree[i].name.size(), bn.tree[i].name.c_str(), nest.tree[i].depth, nest.tree[i].name.size(), nest.tree[i].name.c_str());
+					if (rb_rc >= 0 && rc >= 0 && bn.tree.size() != nest.tree.size()) fail("path-events", "length-linked path: %zu entries, default path: %zu entries, both parses successful", bn.tree.size(), nest.tree.size());
+					if (ledger_live()) fail("leak", "event loop over a length-linked path (%d) left %zu block(s) allocated: %s", rb_rc, ledger_live(), ledger_describe().c_str());
+					st.hit(rb_rc < 0 && rc >= 0 ? "probe:binary_path_refused_what_default_took" : "probe:binary_path_events_compared");
+				}
 			}
 		}
 		// single-fault enumeration
